@@ -48,3 +48,37 @@ def exportFormat (fmt : String → Option String) (dsl : String) : String :=
   | none => "Error:" ++ "syntax errors found: …"
 
 end FinProtoc.Cli
+
+/-! ## `compile` (`cmd/compile.go`, `WriteCodeToFile` of `common.go`)
+
+A generator is seen through its result: the file map it returns (names relative to the target's output
+directory) or an error.  `os.Create` truncates, so a write replaces the whole content of the path. -/
+namespace FinProtoc.Cli
+
+structure Target where
+  lang : String
+  path : String                                   -- "" = flag absent: the target is not requested
+  gen : Except String (List (String × String))    -- the generator's file map, in the order the map range yields it
+  deriving Repr
+
+def outPath (dir name : String) : String := dir ++ "/" ++ name
+
+/-- `WriteCodeToFile`: every entry of the map is created (truncated) and written, one line is printed per file -/
+def writeCode (dir : String) (files : List (String × String)) (w : World) : World :=
+  files.foldl (fun w f => (w.write (outPath dir f.1) f.2).println ("Generated code for packet: " ++ outPath dir f.1)) w
+
+/-- the loop over the generator table of `Compile`: the first failing generator ends the run with exit status 1 -/
+def runTargets : List Target → World → World
+  | [], w => w
+  | t :: ts, w =>
+    if t.path = "" then runTargets ts w
+    else match t.gen with
+      | .error e => { (w.println ("failed to generate " ++ t.lang ++ " code: " ++ e)) with exit := 1 }
+      | .ok files => runTargets ts (writeCode t.path files w)
+
+/-- `Compile`: a text with diagnostics (syntax errors, semantic errors) never reaches a generator -/
+def runCompile (diags : List String) (targets : List Target) (w : World) : World :=
+  if diags.isEmpty then runTargets targets w
+  else { (diags.foldl (fun w d => w.println d) w).println ("found " ++ toString diags.length ++ " syntax errors") with exit := 1 }
+
+end FinProtoc.Cli
